@@ -50,6 +50,12 @@ impl AsMut<G{i}> for F{i} {{ fn as_mut(&mut self) -> &mut G{i} {{ &mut self.g }}
 
 
 DST_TYPES = r'''
+pub struct Absent;
+macro_rules! impls { ($t:ty : $($tr:tt)+) => {{
+    trait Fb { const V: bool = false; } impl<T: ?Sized> Fb for T {}
+    struct W<T: ?Sized>(core::marker::PhantomData<T>);
+    #[allow(dead_code)] impl<T: ?Sized + $($tr)+> W<T> { const V: bool = true; }
+    <W<$t>>::V }} }
 // an UNSIZED field type (a transparent wrapper of [u8]) whose own AsRef<Self>/AsMut<Self> drop the first byte, and whose
 // AsRef<[u8]> is the whole slice: the field itself and a forwarded call are told apart by address and length
 #[repr(transparent)] pub struct Dst(pub [u8]);
@@ -175,7 +181,7 @@ def asref_modules(c, named, variant):
         return out, rej      # two blanket impls overlap: not a documented use
     if ("fwd" in fs or sattr == "fwd") and n > 1 and any(m in ("sel", "tys") for m in fs):
         return out, rej      # a blanket impl next to concrete ones overlaps
-    generic = variant == "generic"
+    generic = variant in ("generic", "generic_partial")
     # 'shadowseg': the struct has a type parameter NAMED like the last segment of the (concrete) field type's path,
     # `struct S<F1>(tm::F1, PhantomData<F1>)`, and lists the field type through its alias: the field is not generic
     shadowseg = variant == "shadowseg"
@@ -187,6 +193,10 @@ def asref_modules(c, named, variant):
 
     def tys_list(i):
         me = f"A{i + 1}" if variant in ("alias", "shadowseg") else fty(i)
+        if variant == "generic_partial":
+            # a listed type the instantiation does NOT convert to comes first: each listed type gets an impl of its own,
+            # demanding that conversion only
+            return f"Absent, G{i + 1}"
         return f"G{i + 1}, {me}"
     marks = {}
     fields = []
@@ -226,6 +236,11 @@ def asref_modules(c, named, variant):
             exp.append(f"as_ref_fwd {i} true true")
             rows.append(f'{{ let mut m = {init}; *AsMut::<{G}>::as_mut(&mut m) = {G}(251); rows.push(format!("as_mut_fwd {i} {{}}", m.{f}.g == {G}(251))); }}')
             exp.append(f"as_mut_fwd {i} true")
+        elif mode == "tys" and variant == "generic_partial":
+            rows.append(f'rows.push(format!("as_ref_partial {i} {{}} {{}}", ad(AsRef::<{G}>::as_ref(&s)) == ad(&s.{f}.g), impls!(S<F1>: AsRef<Absent>)));')
+            exp.append(f"as_ref_partial {i} true false")
+            rows.append(f'{{ let mut m = {init}; *AsMut::<{G}>::as_mut(&mut m) = {G}(253); rows.push(format!("as_mut_partial {i} {{}}", m.{f}.g == {G}(253))); }}')
+            exp.append(f"as_mut_partial {i} true")
         elif mode == "tys":
             # listed G: what the field's own impl returns; listed field type (or its alias): the field ITSELF
             rows.append(f'rows.push(format!("as_ref_tys {i} {{}} {{}}", ad(AsRef::<{G}>::as_ref(&s)) == ad(&s.{f}.g), ad(AsRef::<{F}>::as_ref(&s)) == ad(&s.{f})));')
@@ -300,12 +315,14 @@ def run(chk, tier, seed, replay):
                 mods.append((k, m))
                 exps[k] = (e, m)
             rejs += rj
-            for variant in ("plain", "alias", "generic", "shadowseg"):
+            for variant in ("plain", "alias", "generic", "shadowseg", "generic_partial"):
                 if variant == "alias" and "tys" not in c["fs"] and c["sattr"] != "tys":
                     continue
                 if variant == "shadowseg" and not (all(m in ("tys", "sel", "fwd") for m in c["fs"]) and "tys" in c["fs"] and c["sattr"] == "none"):
                     continue   # (the extra PhantomData field stays unmarked: only with positive marks on every other field)
-                if variant == "generic" and (len(c["fs"]) != 1 or c["fs"][0] == "ign"):
+                if variant == "generic_partial" and not (len(c["fs"]) == 1 and (c["fs"][0] == "tys" or c["sattr"] == "tys")):
+                    continue
+                if variant in ("generic", "generic_partial") and (len(c["fs"]) != 1 or c["fs"][0] == "ign"):
                     continue   # `impl<T> AsRef<T> for S<T>` next to another field's impl overlaps: one field only
                 o, rj = asref_modules(c, named, variant)
                 for k, m, e in o:
